@@ -4,7 +4,7 @@ import AslModel.Spec.Robust
 /-! Driver mode `c03`: one tool run per request line.
 
 request : `<tool> <g> <slack> <outcome> <filehex>`
-  tool    = plist | pbind | p2bin | p2hex | p2bina | p2hexa   (`a` = automatic range: MeasureFile pass first)
+  tool    = plist | pbind | pbindf | p2bin | p2hex | p2bina | p2hexa   (`a` = automatic range: MeasureFile pass first)
   g       = 1 when the probed binaries refuse granularity 0 (guard present), else 0
   slack   = bytes the tool's processing pass wants behind a data record (probed on the real binary each run:
             1 = "the `$00` record must follow", 2 = the off-by-one of the pinned tree)
@@ -44,6 +44,8 @@ def selTool (t : String) (g : Bool) (sl : Nat) : Option ToolSel :=
   match t with
   | "plist" => some ⟨{ cfgPlist g with slack := sl }, none, true⟩
   | "pbind" => some ⟨{ cfgPbind with slack := sl }, none, false⟩
+  -- pbind -f <family no record has>: the filter decides what is copied, not what is validated
+  | "pbindf" => some ⟨{ cfgPbind with slack := sl }, none, false⟩
   | "p2bin" => some ⟨{ cfgP2bin g with slack := sl }, none, false⟩
   | "p2hex" => some ⟨{ cfgP2hex g with slack := sl }, none, false⟩
   | "p2bina" => some ⟨{ cfgP2bin g with slack := sl }, some (cfgMeasureBin g), false⟩
